@@ -166,6 +166,15 @@ pub fn main(a: Args) -> i32 {
                 }
                 let oc = r.pick(&pool[1..6]).clone();
                 put_path(&mut ol, &p, Some(oc));
+                // half the time the other client also commits at the NEXT paths this client is about to send, so that
+                // every later Put of the gated client (not only the first) meets content its listing did not show
+                if !directed && r.chance(1, 2) {
+                    for (q, qc) in local_sorted.iter().skip(1).take(1 + r.below(2) as usize) {
+                        let mut oc2 = r.pick(&pool[1..6]).clone();
+                        if &oc2 == qc { oc2.push(b'#'); }
+                        put_path(&mut ol, q, Some(oc2));
+                    }
+                }
                 locals[other] = ol.clone();
                 write_tree(&odir, &ol);
                 let mut ctl = Ctl::new(&absout, &shim, &copia);
